@@ -152,7 +152,7 @@ func (s *pSite) locksets(fn *ssa.Function, entry map[ssa.Value]bool) map[ssa.Ins
 	return out
 }
 
-func (pc *pCtx) p7Lockset(s *pSite) {
+func (pc *pCtx) p7Lockset(s *pSite, wantRaces, wantOrder bool) {
 	props := []string{"C13"}
 	// contexts: name -> functions (with the locks held on entry, for helper closures called under a lock)
 	type ctxDef struct {
@@ -303,6 +303,131 @@ func (pc *pCtx) p7Lockset(s *pSite) {
 		ctxs = append(ctxs, cd)
 	}
 	if len(ctxs) < 2 {
+		return
+	}
+	if wantOrder {
+		// P11: a value taken out of shared state under a lock and handed downstream after that lock was released can be
+		// overtaken by the same hand-over running in another context (a tick and a source value, two sources): the
+		// downstream then sees the values out of the order in which they were taken.
+		timed := false
+		for _, cd := range ctxs {
+			if cd.name == "timer" || strings.Contains(cd.name, "Interval") || strings.Contains(cd.name, "Timer") {
+				timed = true
+			}
+		}
+		oprops := []string{"C05"}
+		if timed {
+			oprops = []string{"C16"}
+		}
+		inCtxs := map[*ssa.Function]map[string]bool{}
+		entryOf := map[*ssa.Function]map[ssa.Value]bool{}
+		for ci, cd := range ctxs {
+			if cd.name == "teardown" {
+				continue
+			}
+			for fn, entry := range cd.fns {
+				if inCtxs[fn] == nil {
+					inCtxs[fn] = map[string]bool{}
+					entryOf[fn] = entry
+				} else {
+					for k := range entryOf[fn] {
+						if !entry[k] {
+							delete(entryOf[fn], k)
+						}
+					}
+				}
+				inCtxs[fn][fmt.Sprintf("%d:%s", ci, cd.name)] = true
+			}
+		}
+		var fns []*ssa.Function
+		for fn, cs := range inCtxs {
+			if len(cs) >= 2 {
+				fns = append(fns, fn)
+			}
+		}
+		sort.Slice(fns, func(i, j int) bool { return funcKey(fns[i]) < funcKey(fns[j]) })
+		for _, fn := range fns {
+			ls := s.locksets(fn, entryOf[fn])
+			n := 0
+			for _, b := range fn.Blocks {
+				for _, ins := range b.Instrs {
+					call, ok := ins.(*ssa.Call)
+					if !ok || !call.Common().IsInvoke() || !strings.HasPrefix(call.Common().Method.Name(), "Next") || !s.isDest(call.Common().Value) {
+						continue
+					}
+					n++
+					args := call.Common().Args
+					if len(args) == 0 {
+						continue
+					}
+					val := args[len(args)-1]
+					// loads of shared cells the delivered value is computed from
+					var loads []*ssa.UnOp
+					seen := map[ssa.Value]bool{}
+					var back func(v ssa.Value, d int)
+					back = func(v ssa.Value, d int) {
+						if v == nil || seen[v] || d > 12 {
+							return
+						}
+						seen[v] = true
+						switch t := v.(type) {
+						case *ssa.UnOp:
+							if t.Op == token.MUL {
+								if al, ok := s.root(t.X).(*ssa.Alloc); ok && al.Parent() == s.Subscribe && !inLoop(al) {
+									loads = append(loads, t)
+									return
+								}
+							}
+							back(t.X, d+1)
+						case *ssa.Phi:
+							for _, e := range t.Edges {
+								back(e, d+1)
+							}
+						case *ssa.Slice:
+							back(t.X, d+1)
+						case *ssa.ChangeType:
+							back(t.X, d+1)
+						case *ssa.Convert:
+							back(t.X, d+1)
+						case *ssa.MakeInterface:
+							back(t.X, d+1)
+						case *ssa.Field:
+							back(t.X, d+1)
+						case *ssa.FieldAddr:
+							back(t.X, d+1)
+						case *ssa.IndexAddr:
+							back(t.X, d+1)
+						case *ssa.Extract:
+							back(t.Tuple, d+1)
+						}
+					}
+					back(val, 0)
+					ok2 := true
+					note := ""
+					for _, ld := range loads {
+						if ld.Parent() != fn {
+							continue
+						}
+						common := false
+						for l := range ls[ld] {
+							if ls[ins][l] {
+								common = true // a lock held from the take to the delivery orders concurrent hand-overs
+							}
+						}
+						for l := range ls[ld] {
+							if !common && !ls[ins][l] {
+								ok2 = false
+								note = fmt.Sprintf("%s takes %s under %s (%s) and delivers it after the lock is released (%s); the function runs in %d concurrent contexts, so a later take can be delivered first", funcKey(fn), cellName(s.root(ld.X)), cellName(l), pc.pos(ld.Pos()), pc.pos(ins.Pos()), len(inCtxs[fn]))
+							}
+						}
+					}
+					pc.add(oprops, fmt.Sprintf("P11/%s/%s/delivery#%d-keeps-the-order-of-the-takes", s.Name, strings.TrimPrefix(funcKey(fn), funcKey(s.Top)), n),
+						"a value taken from shared state under a lock by a function that runs in two or more concurrent contexts is delivered downstream before that lock is released (or under another lock that orders take and delivery)", ok2, note, pc.pos(ins.Pos()))
+				}
+			}
+		}
+	}
+	if !wantRaces {
 		return
 	}
 	// accesses per cell per context
